@@ -63,12 +63,14 @@ func isFieldLoad(v ssa.Value, pkg, typ, field string) (ssa.Value, bool) {
 }
 
 func C05(c *Ctx) {
-	c.R.Explanation = "Decides structural necessary conditions of Walk's accounting on the SSA form of Spec.Walk: (R1) the unique call of Step lies in a counted loop whose induction variable starts at a constant, is advanced only by +1 once per iteration and is tested with '<' against Control.Limit, and in no inner loop, so steps <= max(Limit,0) on every path; (R2) the loop-carried message slice has exactly the definitions {parameter, itself, itself[1:]}, the message offered to Step is element 0 of the current slice, and the pop happens exactly under the 'Consumed != nil' edge; (R3) at the exits that report Limited or BreakpointReached, Remaining is the loop-carried slice current at that point; (R4) Step's state argument is the loop-carried state whose only back-edge definitions are itself and a copy of the stride's To; (R5) Done is reported only under 'stride.To == nil', Limited only on the exhausted-counter edge, BreakpointReached only under a breakpoint's verdict. Batch-split equivalence and quiescence are not decided."
+	c.R.Explanation = "Decides structural necessary conditions of Walk's accounting on the SSA form of Spec.Walk: (R1) the unique call of Step lies in a counted loop whose induction variable starts at a constant, is advanced only by +1 once per iteration and is tested with '<' against Control.Limit, and in no inner loop, so steps <= max(Limit,0) on every path; (R2) the loop-carried message slice has exactly the definitions {parameter, itself, itself[1:]}, the message offered to Step is element 0 of the current slice, and the pop happens exactly under the 'Consumed != nil' edge; (R3) at the exits that report Limited or BreakpointReached, Remaining is the loop-carried slice current at that point; (R4) Step's state argument is the loop-carried state whose only back-edge definitions are itself and a copy of the stride's To; (R5) Done is reported only under 'stride.To == nil', Limited only on the exhausted-counter edge, BreakpointReached only under a breakpoint's verdict. (R6) every return of Step that is reachable after branch evaluation returns the stride built by that step: Walk pops a message only on the stride's Consumed field, so a step that consulted the message and returns no stride makes Walk offer the same message again. Batch-split equivalence and quiescence are not decided."
 	c.R.Rule("C05-R1", "E3", "step bound: Step once per iteration of a canonical counted loop", 3)
 	c.R.Rule("C05-R2", "E5", "queue discipline: front pop under Consumed, first element offered", 3)
 	c.R.Rule("C05-R3", "E5", "truthful remainder at Limited / BreakpointReached", 2)
 	c.R.Rule("C05-R4", "E5", "state chaining", 1)
 	c.R.Rule("C05-R5", "E3", "stop reasons are stored only under their conditions", 3)
+	c.R.Rule("C05-R6", "E3", "a step that evaluated branches reports its stride (which records the consumption)", 1)
+	c05StrideAfterBranches(c)
 	walk := c.fn("core", "Spec", "Walk")
 	step := c.fn("core", "Spec", "Step")
 	if walk == nil || step == nil {
@@ -558,4 +560,57 @@ func phiEdgeNil(v ssa.Value, pred func(*ssa.BasicBlock) bool) bool {
 		}
 	}
 	return n > 0
+}
+
+// c05StrideAfterBranches: C05-R6.
+func c05StrideAfterBranches(c *Ctx) {
+	step := c.fn("core", "Spec", "Step")
+	consider := c.P.Func("core", "Branches", "consider")
+	if step == nil || consider == nil {
+		return
+	}
+	var cc *ssa.Call
+	ssau.Instrs(step, func(in ssa.Instruction) {
+		if cl, ok := in.(*ssa.Call); ok && cl.Common().StaticCallee() == consider {
+			cc = cl
+		}
+	})
+	if cc == nil {
+		c.R.Break("C05-R6: Step does not call Branches.consider")
+		return
+	}
+	scope := []*ssa.Function{step}
+	// the stride of this step: where Stride.Consumed is stored
+	var strideLeaves map[ssa.Value]bool
+	for _, st := range storesTo(step, "Stride", "Consumed") {
+		_, _, base, _ := ssau.FieldOf(st.Addr)
+		strideLeaves = map[ssa.Value]bool{}
+		for _, d := range deepDefs(base, scope) {
+			strideLeaves[d] = true
+		}
+	}
+	if strideLeaves == nil {
+		c.R.Break("C05-R6: Step never records the consumed message in a stride")
+		return
+	}
+	after := flow.ReachableFrom(cc.Block(), nil)
+	after[cc.Block()] = true
+	n := 0
+	for _, b := range step.Blocks {
+		ret, ok := b.Instrs[len(b.Instrs)-1].(*ssa.Return)
+		if !ok || !after[b] || len(ret.Results) == 0 {
+			continue
+		}
+		n++
+		same := !ssau.IsNilConst(ret.Results[0])
+		for _, d := range deepDefs(ret.Results[0], scope) {
+			if !strideLeaves[d] {
+				same = false
+			}
+		}
+		c.R.Check(same, "C05-R6", fmt.Sprintf("Step: return #%d after branch evaluation carries the stride", n), c.pos(ret), "returns the stride whose Consumed field records the consumption", "Step can return without its stride after the branches were evaluated against the pending message: Walk then does not pop the message and offers it again")
+	}
+	if n == 0 {
+		c.R.Break("C05-R6: no return of Step after branch evaluation")
+	}
 }
